@@ -4,8 +4,11 @@ import RxnModel.Model.KeySpace
 # Model of the source runner's delivery path (workers/sourcerunner/source_runner.go, operator_cluster.go)
 
 Goroutines of the code and their actions here (one action per mutex section / channel operation):
-* **read loop** (`processEvents`): `readRec` (`sendKeyEvent`: placeholder on `outputStream`, then
-  `keyEventChannel.Add`), `tick` (watermark placeholder), `barrier` (checkpoint barrier placeholder) — all on one
+* **read loop** (`processEvents`): `fetch` (the select picks a read function and calls it: the reader's cursor moves
+  past the whole read), `enq` (`sendKeyEvent` for the next record of that read: placeholder on `outputStream`, then
+  `keyEventChannel.Add`; may take long under back-pressure), and — only between two reads, because they are cases of the
+  same select — `tick` (watermark placeholder) and `barrier` (`sourceReader.Checkpoint()` snapshots the cursor, then the
+  checkpoint barrier placeholder) — all on one
   goroutine, so `logical` (the read order) is simply the order of these actions;
 * **reorder fetcher** (`keyEventChannel`): abstracted by what C20 proves about it (`C20.reorder_prefix`,
   `C20.reorder_complete`): the results appear on `Output` one per record, in `Add` order, after an arbitrary delay
@@ -95,6 +98,9 @@ structure OpSt where
 
 structure St (ρ : Type) where
   logical : List (Item ρ) := []     -- ghost: everything the read loop enqueued, in order
+  cursor : Nat := 0                 -- the source reader's position: records handed out by `ReadEvents` so far
+  readBuf : List ρ := []            -- records of the current read not yet enqueued
+  ckpts : List (Nat × Nat) := []    -- (checkpoint id, cursor snapshotted by `Checkpoint()`), in order
   stream : List (Item ρ) := []      -- `outputStream`
   rfPending : List (List KEv) := [] -- results the reorder fetcher has not emitted yet (oldest first)
   rfOut : List (List KEv) := []     -- `keyEventChannel.Output`
@@ -106,7 +112,8 @@ def init {ρ : Type} (maxSize : Nat) (hasDelay : Bool) : St ρ :=
   { ops := fun _ => { b := Batcher.new maxSize hasDelay } }
 
 inductive Act (ρ : Type) where
-  | readRec (r : ρ)
+  | fetch (rs : List ρ)   -- `readFunc()`: the source reader hands out one read
+  | enq                   -- `sendKeyEvent` for the next record of the current read
   | tick
   | barrier (id : Nat)
   | rfEmit
@@ -127,11 +134,25 @@ def setOp {ρ : Type} (s : St ρ) (o : Nat) (x : OpSt) : St ρ :=
   { s with ops := fun i => if i = o then x else s.ops i }
 
 def step {ρ : Type} (c : Cfg ρ) (s : St ρ) : Act ρ → Option (St ρ)
-  | .readRec r =>
-    some { s with logical := s.logical ++ [(.record r)], stream := s.stream ++ [(.record r)],
-                  rfPending := s.rfPending ++ [c.keyOf r] }
-  | .tick => some { s with logical := s.logical ++ [.wm], stream := s.stream ++ [.wm] }
-  | .barrier id => some { s with logical := s.logical ++ [.barrier id], stream := s.stream ++ [.barrier id] }
+  | .fetch rs =>
+    match s.readBuf with
+    | [] => some { s with readBuf := rs, cursor := s.cursor + rs.length }
+    | _ => none
+  | .enq =>
+    match s.readBuf with
+    | r :: rest =>
+      some { s with readBuf := rest, logical := s.logical ++ [.record r], stream := s.stream ++ [.record r],
+                    rfPending := s.rfPending ++ [c.keyOf r] }
+    | [] => none
+  | .tick =>
+    match s.readBuf with
+    | [] => some { s with logical := s.logical ++ [.wm], stream := s.stream ++ [.wm] }
+    | _ => none
+  | .barrier id =>
+    match s.readBuf with
+    | [] => some { s with logical := s.logical ++ [.barrier id], stream := s.stream ++ [.barrier id],
+                          ckpts := s.ckpts ++ [(id, s.cursor)] }
+    | _ => none
   | .rfEmit =>
     match s.rfPending with
     | [] => none
@@ -211,13 +232,25 @@ def exec {ρ : Type} (c : Cfg ρ) : St ρ → List (Act ρ) → Option (St ρ)
     | none => none
     | some s' => exec c s' as
 
-/-- the read order as a function of the schedule -/
-def logicalOf {ρ : Type} : List (Act ρ) → List (Item ρ)
+/-- the records the source reader handed out, in order, as a function of the schedule -/
+def fetchedOf {ρ : Type} : List (Act ρ) → List ρ
   | [] => []
-  | .readRec r :: as => .record r :: logicalOf as
-  | .tick :: as => .wm :: logicalOf as
-  | .barrier id :: as => .barrier id :: logicalOf as
-  | _ :: as => logicalOf as
+  | .fetch rs :: as => rs ++ fetchedOf as
+  | _ :: as => fetchedOf as
+
+def recOf {ρ : Type} : Item ρ → Option ρ
+  | .record r => some r
+  | _ => none
+
+/-- the records of a stretch of the read order -/
+def recordsOf {ρ : Type} (l : List (Item ρ)) : List ρ := l.filterMap recOf
+
+/-- for every barrier of a read order: (checkpoint id, number of records before it), counting from `n` -/
+def cutsOf {ρ : Type} : List (Item ρ) → Nat → List (Nat × Nat)
+  | [], _ => []
+  | .record _ :: l, n => cutsOf l (n + 1)
+  | .wm :: l, n => cutsOf l n
+  | .barrier id :: l, n => (id, n) :: cutsOf l n
 
 /-- everything operator `o` has been handed so far -/
 def delivered {ρ : Type} (s : St ρ) (o : Nat) : List Ev := (s.ops o).recv.flatten
